@@ -627,7 +627,7 @@ int Main(int argc, char** argv, Engine& e) {
     }
   };
 
-  int live = W;
+  int live = W; bool gaveUp = false;
   while (live > 0) {
     std::vector<pollfd> pf; std::vector<int> idx;
     for (int w = 0; w < W; ++w) if (ws[static_cast<size_t>(w)].fd >= 0) { pf.push_back({ ws[static_cast<size_t>(w)].fd, POLLIN, 0 }); idx.push_back(w); }
@@ -655,6 +655,7 @@ int Main(int argc, char** argv, Engine& e) {
             const uint64_t next = static_cast<uint64_t>(ctl.current) + static_cast<uint64_t>(W);
             // benign watchdog stops (resource exhaustion inside an evaluation) do not count towards the give-up limit
             size_t hard = 0; for (auto r : crashedRuns) if (!(watchdogTag.count(r) && watchdogTag[r] == "evaluation")) ++hard;
+            if (hard >= 200) gaveUp = true;
             if (next < a.firstRun + totalRuns && NowS() - t0 < maxSecs && hard < 200) { spawn(w, next, ctl); ++live; }
           } else if (WIFEXITED(status) && WEXITSTATUS(status) == 79) {
             total.Add("watchdog_stop_during_determinism_recheck");   // a slow run of the re-executed sample hit the CPU watchdog: the rest of this worker's sample is skipped
@@ -791,6 +792,7 @@ int Main(int argc, char** argv, Engine& e) {
   }
   printf("done: runs=%" PRIu64 " nontrivial=%" PRIu64 " steps=%" PRIu64 " distinct_seq=%zu states=%zu crashes=%zu known=%zu recheck=%" PRIu64 "/%" PRIu64 " wall=%.1fs\n",
          runsDone, nontrivialRuns, stepsDone, allSeqs.size(), allStates.size(), crashedRuns.size(), kfHit.size(), rechecked - mismatches, rechecked, wall);
+  if (gaveUp) printf("note: the batch stopped early after 200 crashed runs; %" PRIu64 " of %" PRIu64 " runs were executed (crash classes of other properties are listed under met_other in the evidence)\n", runsDone, totalRuns);
   if (machineryFaults && exitCode != 1) { printf("MACHINERY-FAULT count=%" PRIu64 " (exit 2)\n", machineryFaults); return 2; }
   if (machineryFaults) printf("note: %" PRIu64 " further candidate(s) could not be reproduced deterministically and are not reported; the violation(s) above passed the replay gate\n", machineryFaults);
   return exitCode;
